@@ -494,6 +494,64 @@ func vlSubsequence(sub, s string) bool {
 	return i == len(sub)
 }
 
+
+// vlDropsExplained: is the streamed text `o` the generated bytes `g` with only such bytes removed as flushPending's
+// trim to the longest valid UTF-8 prefix can remove?  Every maximal removed run must START at a byte at which
+// decoding `g` fails (an invalid byte, or a character that is never completed) — the trim then discards the rest of
+// that pending window, valid or not — except a final run, which may also start where a stop string occurs in `g`
+// (TruncateStop cut there).  Independent of the model and of runner/common: unicode/utf8 and strings only.
+func vlDropsExplained(o, g string, stops []string, endedByStop bool) bool {
+	n, m := len(g), len(o)
+	invalid := make([]bool, n)
+	for i := 0; i < n; {
+		r, w := utf8.DecodeRuneInString(g[i:])
+		if r == utf8.RuneError && w <= 1 {
+			invalid[i] = true
+			i++
+		} else {
+			i += w
+		}
+	}
+	stopAt := func(i int) bool {
+		if !endedByStop {
+			return false
+		}
+		for _, st := range stops {
+			if st != "" && strings.HasPrefix(g[i:], st) {
+				return true
+			}
+		}
+		return false
+	}
+	// can[i][k][d]: g[i:] can be explained against o[k:], d = 1 while inside a removed run
+	memo := make([]int8, (n+1)*(m+1)*2)
+	var can func(i, k, d int) bool
+	can = func(i, k, d int) bool {
+		if i == n {
+			return k == m
+		}
+		ix := (i*(m+1)+k)*2 + d
+		if memo[ix] != 0 {
+			return memo[ix] > 0
+		}
+		ok := false
+		if k < m && g[i] == o[k] && can(i+1, k+1, 0) {
+			ok = true
+		} else if (d == 1 || invalid[i]) && can(i+1, k, 1) {
+			ok = true
+		} else if k == m && stopAt(i) {
+			ok = true
+		}
+		if ok {
+			memo[ix] = 1
+		} else {
+			memo[ix] = -1
+		}
+		return ok
+	}
+	return can(0, 0, 0)
+}
+
 func vlTrimTail(s string) string {
 	for i := 0; i < 4 && len(s) > 0 && !utf8.ValidString(s); i++ {
 		s = s[:len(s)-1]
@@ -529,9 +587,15 @@ func vlL2(out *zzverif.Out, line string, stops []string, script []vlEv, res vlRe
 			out.L2("prefix-valid-gen", line, fmt.Sprintf("runner=llama out=%x gen=%x", o, g))
 		} else {
 			class := "other"
-			if vlSubsequence(o, g) {
+			oo := o
+			if res.reason == "running" {
+				oo += strings.Join(res.pending, "") // still running: the tail is held back, not dropped
+			}
+			if vlDropsExplained(oo, g, stops, res.reason == "stop") {
 				class = "invalid-utf8-bytes-dropped"
 				out.Count("llama_f20_dropped_bytes")
+			} else if vlSubsequence(o, g) {
+				class = "valid-text-lost"
 			}
 			out.L2("prefix-invalid-gen", line, fmt.Sprintf("class=%s runner=llama out=%x gen=%x", class, o, g))
 		}
@@ -581,6 +645,17 @@ func vlL2(out *zzverif.Out, line string, stops []string, script []vlEv, res vlRe
 		out.L2("reason-map", line, fmt.Sprintf("runner=llama cause=%s reason=%s", cause, res.reason))
 	}
 	if !vp {
+		for _, st := range stops {
+			if strings.Contains(o, st) {
+				cl := "other"
+				if !strings.Contains(g, st) && !strings.HasPrefix(g, o) && vlDropsExplained(o, g, stops, res.reason == "stop") {
+					cl = "after-invalid-bytes"
+					out.Count("llama_f20_stop_spelt_after_drop")
+				}
+				out.L2("stop-in-output", line, fmt.Sprintf("class=%s runner=llama stop=%x out=%x gen=%x", cl, st, o, g))
+				break
+			}
+		}
 		return
 	}
 	for _, st := range stops {
